@@ -154,11 +154,14 @@ def subset(from_table: {str: int}, name: str, parents: [int] = None) -> {}:
     result = {}
     if parents:
         for parent in parents:
+            # every version of exactly this name, not of names it is a prefix of
             surname = construct(name, parent)
+            versioned = surname + '___version:'
             result.update(
                 dict(
                     filter(
-                        lambda t, sn=surname: t[0].startswith(sn),
+                        lambda t, sn=surname, vsn=versioned: t[0] == sn
+                        or t[0].startswith(vsn),
                         from_table.items(),
                     )
                 )
